@@ -86,7 +86,12 @@ class Env:
         return sorted(t for t, f in self.gates.items() if not f.done())
 
     def release(self, tag):
-        self.gates[tag].set_result(None)
+        if tag.startswith("x"):
+            # what the handler waits for is cancelled by another part of the director (a hash
+            # queue shutting down, say): the handler ends in CancelledError on a healthy connection
+            self.gates[tag].cancel()
+        else:
+            self.gates[tag].set_result(None)
 
     def settle(self):
         self.loop.run_ready(20000)
@@ -124,6 +129,12 @@ def make_handler(env):
             return ("slow", tag)
 
         @allow_rpc
+        async def doomed(self, tag):
+            self.invoked.append(("doomed", tag))
+            await env.gate(tag)
+            return ("doomed", tag)
+
+        @allow_rpc
         async def usage(self, tag):
             self.invoked.append(("usage", tag))
             raise GraphError(f"bad plan {tag}")
@@ -158,7 +169,7 @@ def encode_call(cid, name, *args):
 CALL_MENU = [
     ("echo", (1,)), ("sync_echo", (2,)), ("slow", ("g1",)), ("slow", ("g2",)), ("usage", ("u",)),
     ("internal", ("i",)), ("unpicklable", ()), ("hidden", (3,)), ("_private", ()),
-    ("__init__", ()), ("nosuch", ()), ("echo", ()),
+    ("__init__", ()), ("nosuch", ()), ("echo", ()), ("doomed", ("x1",)),
 ]
 
 
@@ -170,7 +181,7 @@ def expected_reply(name, args):
         return ("value", (name, args[0]))
     if name == "usage":
         return ("usage", "GraphError")
-    if name == "internal":
+    if name in ("internal", "doomed"):
         return ("rpcerror",)
     if name == "unpicklable":
         return ("sentinel",)
@@ -321,7 +332,7 @@ def judge_server(acc, key, calls, res, complete_upto, what, fault):
     unp_at = next((i for i, (n, _) in enumerate(calls) if n == "unpicklable"), None)
     for i, (name, args) in enumerate(calls):
         cid = i + 1
-        optional = (name == "slow" and args[0] in late) or (unp_at is not None and i != unp_at)
+        optional = (name in ("slow", "doomed") and args[0] in late) or (unp_at is not None and i != unp_at)
         if i < complete_upto:
             if fault is None and not optional:
                 check_reply(acc, key, name, args, frames.get(cid, []), what)
@@ -341,7 +352,7 @@ def judge_server(acc, key, calls, res, complete_upto, what, fault):
     for i, (name, args) in enumerate(calls[:complete_upto]):
         if unp_at is not None and i > unp_at:
             continue
-        if expected_reply(name, args)[0] != "rpcerror" or name == "internal":
+        if expected_reply(name, args)[0] != "rpcerror" or name in ("internal", "doomed"):
             n = sum(1 for rec in res["invoked"] if rec[0] == name and tuple(rec[1:]) == tuple(args))
             same = sum(1 for (n2, a2) in calls[:complete_upto] if (n2, a2) == (name, args))
             if n != same:
@@ -393,7 +404,8 @@ def call_sets(tier):
     singles = [[c] for c in CALL_MENU]
     pairs = [[("slow", ("g1",)), ("echo", (1,))], [("slow", ("g1",)), ("slow", ("g2",))],
              [("usage", ("u",)), ("slow", ("g1",))], [("unpicklable", ()), ("echo", (1,))],
-             [("hidden", (3,)), ("echo", (1,))], [("internal", ("i",)), ("slow", ("g1",))]]
+             [("hidden", (3,)), ("echo", (1,))], [("internal", ("i",)), ("slow", ("g1",))],
+             [("doomed", ("x1",)), ("echo", (1,))], [("slow", ("g1",)), ("doomed", ("x1",))]]
     triples = [[("slow", ("g1",)), ("slow", ("g2",)), ("echo", (1,))],
                [("slow", ("g1",)), ("usage", ("u",)), ("slow", ("g2",))]]
     return singles + pairs + triples
